@@ -190,7 +190,7 @@ prop(
     "C01",
     level="other",
     design_ref="DESIGN.md section 3, C01",
-    groups=[(_PIPE, r"^(\(\*Batcher\)\.(work|commitBatch|trySendBatchAndUnlock)|\(\*RetriableBatcher\)\.Out|\(\*processor\)\.(doActions|processSequence|processEvent|Propagate)|\(\*Pipeline\)\.finalize|\(\*stream\)\.(commit|tryDetach|leave)|\(\*Router\)\.(Fail|Out|IsDeadQueueAvailable))$")],
+    groups=[(_PIPE, r"^(\(\*Batcher\)\.(work|commitBatch|trySendBatchAndUnlock)|\(\*RetriableBatcher\)\.Out|\(\*processor\)\.(doActions|processSequence|processEvent|Propagate)|\(\*Pipeline\)\.finalize|\(\*stream\)\.(commit|tryDetach|leave|tryUnblock)|\(\*Router\)\.(Fail|Out|IsDeadQueueAvailable))$")],
     claim=(
         "Each mechanism the commit-frontier property names is a proved contract on the real function: (1) Batcher.work commits a batch only after its own send returned, commitBatch commits in batch-sequence order under seqMu (monitor) and each event once; "
         "(2) doActions finalizes an event at most once, only after discard / collapse / hold, never notifying the input (so dropped, merged or held events never move the input offset), returning it to the pool for discard and collapse but not for hold; "
@@ -213,7 +213,7 @@ prop(
     "C02",
     level="other",
     design_ref="DESIGN.md section 3, C02",
-    groups=[(_PIPE, r"^(\(\*stream\)\.(put|get|instantGet|commit|tryDetach|leave)|\(\*streamer\)\.getStream|\(\*Pipeline\)\.finalize|\(\*processor\)\.(processEvent|processSequence|Propagate|doActions)|\(\*Batcher\)\.(Add|commitBatch))$")],
+    groups=[(_PIPE, r"^(\(\*stream\)\.(put|get|instantGet|commit|tryDetach|leave|tryUnblock)|\(\*streamer\)\.getStream|\(\*Pipeline\)\.finalize|\(\*processor\)\.(processEvent|processSequence|Propagate|doActions)|\(\*Batcher\)\.(Add|commitBatch))$")],
     claim=(
         "Per-stream order mechanisms proved: stream.put hands out strictly increasing sequence ids in arrival order under the stream lock and appends at the tail; get takes the head (FIFO) and records it as the stream's away event; "
         "after hold/collapse the processor takes the next event from the same stream; Propagate re-injects a held event at the action after the one that held it before the triggering event continues; "
@@ -233,7 +233,7 @@ prop(
     "C04",
     level="other",
     design_ref="DESIGN.md section 3, C04",
-    groups=[(_PIPE, r"^(\(\*eventPool\)\.wakeupWaiters|\(\*lowMemoryEventPool\)\.(wakeupWaiters|back|eventsAvailable)|\(\*stream\)\.(put|tryDetach)|\(\*streamer\)\.makeCharged|\(\*Batch\)\.updateStatus|\(\*Batcher\)\.heartbeat)$")],
+    groups=[(_PIPE, r"^(\(\*eventPool\)\.wakeupWaiters|\(\*lowMemoryEventPool\)\.(wakeupWaiters|back|eventsAvailable)|\(\*stream\)\.(put|tryDetach|tryUnblock)|\(\*streamer\)\.makeCharged|\(\*Batch\)\.updateStatus|\(\*Batcher\)\.heartbeat)$")],
     canaries=[("./pipeline", "replay/C04/zz_replay_c04_test.go", "TestVerifReplayC04")],
     claim=(
         "The must-signal / must-flush rules the no-wedge property rests on, as proved per-iteration and per-call contracts: both pool heartbeats broadcast in every iteration in which readers wait and capacity is free (and only then); "
@@ -272,7 +272,7 @@ prop(
     "C14",
     level="other",
     design_ref="DESIGN.md section 3, C14",
-    groups=[(["./pipeline/doif"], r"^(\(\*logicalNode\)\.Check|NewLogicalNode|\(\*fieldOpNode\)\.Check)$"),
+    groups=[(["./pipeline/doif"], r"^(\(\*logicalNode\)\.Check|NewLogicalNode|NewFieldOpNode|\(\*fieldOpNode\)\.Check)$"),
             (["./pipeline"], r"^(\(\*processor\)\.(isMatch|isMatchOr|isMatchAnd)|\(\*MatchCondition\)\.valueExists)$")],
     canaries=[("./pipeline", "replay/C14/zz_replay_c14_test.go", "TestVerifReplayC14")],
     claim=(
